@@ -247,9 +247,10 @@ where
         mut self,
         delete_fn: &crate::types::DeleteBlobCallFn,
     ) -> Result<(), IndexError> {
-        self.index.apply_put_op(self.key.clone(), self.hash, self.size, delete_fn)?;
-        self.committed = true;
-        Ok(())
+        // `apply_put_op` marks the intent as committed as soon as it has released it, so that a
+        // failure after that point (blob deletion, rollover checkpoint) is not reverted again.
+        let index = self.index;
+        index.apply_put_op(self.key.clone(), self.hash, self.size, delete_fn, &mut self.committed)
     }
 }
 
@@ -361,6 +362,7 @@ where
         hash: BlobHash,
         size: u64,
         delete_fn: &crate::types::DeleteBlobCallFn,
+        intent_released: &mut bool,
     ) -> Result<(), IndexError> {
         let logical_op = WalOp::Put { key: key.clone(), hash, size };
         #[cfg(feature = "verif")]
@@ -387,6 +389,7 @@ where
             intents.by_key.remove(&key);
         }
         intents.release(&hash);
+        *intent_released = true;
 
         // Filter out any unreferenced hashes that are still needed by other in-flight commits
         unreferenced_from_op.retain(|hash| !intents.protects(hash));
